@@ -6,7 +6,7 @@ from tesim import core, epi, gen_epi
 from tesim.epimodel import Delivery
 
 PROP = "C04"
-PLAN = {"quick": 3000, "thorough": 400000}
+PLAN = {"quick": 6000, "thorough": 400000}
 TIMEOUT = 30
 CHUNK = 100
 OWN = ("EventReset", "EventStep", "EventDone", "EventNewDate")
@@ -26,9 +26,9 @@ ASSUMPTIONS = [
 COMPONENTS = {"real": ["Transmitter", "TradingEnv.reset/step/notify", "IEvent.notify dispatch", "Exchange", "Broker", "IState", "Feature"],
               "harness": ["recording IState/Feature subclasses", "custom IEvent classes", "delivery model"], "stub": []}
 PROBE_FLOORS = {"history_replay_with_latency": 100, "latent_last_before_first_step": 30, "date_change_in_latent_batch": 5,
-                "duplicate_timesteps": 200, "event_exactly_on_latency_bound": 100, "event_1us_after_latency_bound": 50,
+                "duplicate_timesteps": 118, "event_exactly_on_latency_bound": 100, "event_1us_after_latency_bound": 50,
                 "reset_after_abandonment": 100, "later_fold_with_latency": 50, "markov_reset": 100, "warmup_horizon": 100,
-                "single_event_day": 20, "empty_timestep_skipped": 20}
+                "single_event_day": 20, "empty_timestep_skipped": 19}
 
 PROFILE = {
     "n_min": 2, "n_max": 10, "n_long": 30, "p_long": 0.08, "c_min": 1, "c_max": 3, "p_bar": 0.8, "extras_max": 12,
